@@ -95,6 +95,12 @@ class Linear(Transform):
         self.cache.invalidate()
         return super()._load_from_state_dict(*args, **kwargs)
 
+    def _apply(self, *args, **kwargs):
+        # Cached tensors are neither parameters nor buffers, so dtype / device conversions
+        # would not reach them; drop them so that they are recomputed when next needed.
+        self.cache.invalidate()
+        return super()._apply(*args, **kwargs)
+
     def use_cache(self, mode=True):
         if not check.is_bool(mode):
             raise TypeError("Mode must be boolean.")
